@@ -8,7 +8,7 @@ Case (JSON):
    "pts": P             # ClusteringPartitioner num_points
    "min": M             # ExtendBlockSizePass minimum size (arm "QuickExtend")
    "model": {"edges": [[u,v]..], "remote": [[u,v]..]}   # GTQCP/TDAG PassData
-   "x": k               # number of known-finding triggers avoided by the draw
+   "x": k               # the arm was drawn under k known-finding restrictions
    "expect": "reject"}  # documented-rejection case (gate wider than block)
   or, for the rich arm, "spec": <vt.gen.specs circuit spec> instead of
   n/radix/ops.
@@ -37,7 +37,7 @@ RULE = (
     '<= 40 ops, (b) seeded expansions of 20-300 ops (uniform or windowed '
     'locations; the op list is explicit in the case and a shorter length is a '
     'prefix), (c) vt.gen.specs rich circuits (mixed radix, wrappers, constant '
-    'unitaries, nested blocks) of <= 5 qudits, (d) nine fixed minimal '
+    'unitaries, nested blocks) of <= 5 qudits, (d) ten fixed minimal '
     'reproducers of the confirmed findings, once per shard; block size 2-6; '
     'partitioner drawn from Quick (weight 5), Scan, Clustering (np.random '
     'seeded from the case), Greedy, GroupSingleQuditGate, Quick followed by '
@@ -47,8 +47,9 @@ RULE = (
     'wider than the block; a separate family feeds them one and accepts only '
     'the documented exception type (or a correct partition). Restrictions: '
     'no 7/8-qutrit circuits (PassData allocates a dim^2 identity); the '
-    'surround-based arms (Greedy, Clustering) get <= 80 ops at block size 4 '
-    'and <= 25 at 5-6. For every open known finding the arm concerned draws '
+    'surround-based arms get <= 24/16/16 (Greedy) and <= 40/40/16 '
+    '(Clustering) ops at block size 4/5/6. For every open known finding '
+    'the arm concerned draws '
     'no trigger (counted as excluded). Non-trivial: >= 3 blocks in the '
     'output and >= 1 block with >= 2 operations (rejection family: the '
     'documented exception was raised). Distinct = sha1 of the JSON case. '
@@ -62,8 +63,10 @@ ASSUMPTIONS = [
     'through the grid only, never through the DAG iterator or unfold_all',
     'gate equality of non-CircuitGate gates is structural (CircuitGate '
     'equality is never used: blocks are always compared fully flattened)',
-    'per-qudit projections determine the program (dependence = shares a qudit)',
-    'gate matrices come from the gate itself (C18); numpy tensordot is correct',
+    'per-qudit projections determine the program (dependence = shares a '
+    'qudit)',
+    'gate matrices come from the gate itself (C18); numpy tensordot is '
+    'correct',
     'the passes under test do not read PassData.target (the PassData is built '
     'from a same-shaped placeholder circuit to keep the target lazy)',
 ]
@@ -82,7 +85,6 @@ NO_WIDE = {
     'ScanPartitioner', 'ClusteringPartitioner', 'GTQCPartitioner',
     'TDAGPartitioner',
 }
-SURROUND_BASED = {'GreedyPartitioner', 'ClusteringPartitioner'}
 # documented exception type for a gate wider than the block
 REJECT_TYPE = {
     'ScanPartitioner': RuntimeError, 'GTQCPartitioner': RuntimeError,
@@ -325,6 +327,8 @@ def _drive(p, circuit, data) -> None:
 _RUN_FEATURE = {
     'unable-to-process-all': lambda f: 'ph2' if f['ph2'] else 'noph2',
     'region-goes-off-circuit': lambda f: 'bs>n' if f['bs>n'] else 'bs<=n',
+    'unable-to-topologically-sort':
+        lambda f: 'narrow' if f['narrow'] else 'general',
 }
 
 
@@ -564,7 +568,7 @@ def _judge(name, limit, case, circuit, radixes, ops, ref, feat, out) -> dict:
 
 def check(case) -> Outcome:
     out = Outcome()
-    out.excluded = int(case.get('x', 0))
+    out.excluded = 1 if case.get('x') else 0
     name, bs = case['p'], case['bs']
     radixes = _radixes(case)
     n = len(radixes)
@@ -610,7 +614,9 @@ def check(case) -> Outcome:
             # wide gate): then the result must be a correct partition
             out.label('wide-gate-not-rejected')
         # ---- judge what the pass left, read through the grid
-        info = _judge(stage, limit, case, circuit, radixes, ops, ref, feat, out)
+        info = _judge(
+            stage, limit, case, circuit, radixes, ops, ref, feat, out,
+        )
         if not info['ok']:
             break
 
@@ -708,6 +714,10 @@ SIG_PENDING = (
     'run|QuickPartitioner|RuntimeError|quick.py:run|unable-to-process-all|ph2'
 )
 SIG_PH = 'placeholder_in_block|{}'
+SIG_TOPO = (
+    'run|GreedyPartitioner|RuntimeError|greedy.py:topo_sort|'
+    'unable-to-topologically-sort|general'
+)
 
 
 def _avoid(ctx, name: str) -> dict:
@@ -717,7 +727,9 @@ def _avoid(ctx, name: str) -> dict:
     return {
         # every circuit in which two maximal regions overlap triggers it;
         # the arm is then confined to block size 2 without single-qudit ops
-        'dup': name == 'GreedyPartitioner' and ctx.is_known(SIG_DUP),
+        'dup': name == 'GreedyPartitioner' and (
+            ctx.is_known(SIG_DUP) or ctx.is_known(SIG_TOPO)
+        ),
         '3q': ctx.is_known(f'order|{name}|has3q'),
         'ph': ctx.is_known(SIG_PH.format(name)),
         # a barrier/measurement spanning >= 2 qudits is needed to tie a
@@ -878,6 +890,19 @@ def _model(draw, n):
     return {'edges': edges, 'remote': remote}
 
 
+# Circuit.surround is an exhaustive search whose cost explodes with the block
+# size (80 ops on 4 qubits at block size 4: 90 s); op-count caps per block
+# size for the two arms built on it
+_SURROUND_CAPS = {
+    'GreedyPartitioner': {4: 24, 5: 16, 6: 16},
+    'ClusteringPartitioner': {4: 40, 5: 40, 6: 16},
+}
+
+
+def _op_cap(name: str, bs: int) -> int:
+    return _SURROUND_CAPS.get(name, {}).get(bs, 300)
+
+
 def _spec_width(spec) -> int:
     return max([len(o['loc']) for o in spec['ops']] + [0])
 
@@ -952,18 +977,14 @@ def cases(draw, ctx=None, name=None, mode='drawn'):
         )
         prof['pw'] = min(lim['pw'], draw(st.sampled_from([1, 2, 4, 20])))
         nops = draw(st.integers(20, 300))
-        if name in SURROUND_BASED:
-            # Circuit.surround is an exhaustive search, exponential in bs
-            nops = min(nops, {2: 300, 3: 300, 4: 80}.get(bs, 25))
+        nops = min(nops, _op_cap(name, bs))
         seed = draw(st.integers(0, 2**31 - 1))
         case.update(
             n=n, radix=radix, ops=_expand(n, radix, nops, seed, prof),
         )
     else:
         lim['pw'] = min(lim['pw'], 4)
-        cap = 40
-        if name in SURROUND_BASED and bs >= 5:
-            cap = 20
+        cap = min(40, _op_cap(name, bs))
         case.update(
             n=n, radix=radix, ops=draw(_drawn_ops(n, radix, lim, cap)),
         )
@@ -999,7 +1020,7 @@ def reject_cases(draw):
     case = {'p': name, 'bs': bs, 'n': n, 'radix': 2, 'ops': ops,
             'seed': draw(st.integers(0, 2**31 - 1)), 'expect': 'reject'}
     if name == 'ClusteringPartitioner':
-        case['pts'] = 4
+        case['pts'] = draw(st.sampled_from([1, 4]))
     if name in ('GTQCPartitioner', 'TDAGPartitioner'):
         case['model'] = draw(_model(n))
     return case
@@ -1023,6 +1044,14 @@ DEDICATED: list = [
     (SIG_DUP, _ded(
         'GreedyPartitioner', 2, 3,
         [['cx', [0, 1]], ['h', [0]], ['cx', [0, 2]]],
+    )),
+    # the regions GreedyPartitioner selects depend on each other cyclically
+    # (still so when surround is made to honour bounding_region)
+    (SIG_TOPO, _ded(
+        'GreedyPartitioner', 4, 8,
+        [['h', [0]], ['ccx', [0, 1, 6]], ['cx', [7, 1]], ['cx', [1, 4]],
+         ['cx', [5, 2]], ['ccx', [3, 1, 7]], ['cx', [2, 3]], ['cx', [2, 4]],
+         ['cx', [5, 6]]],
     )),
     # block size > width folds {q: (0, num_cycles)}: one cycle too many
     (SIG_OFF.format('GreedyPartitioner'), _ded(
@@ -1061,8 +1090,8 @@ def run_shard(ctx: core.Ctx) -> core.ShardResult:
         res.record(case, check(case))
     plan = [
         (cases(ctx), 230, 4500),
-        (cases(ctx, mode='big'), 110, 2300),
-        (cases(ctx, mode='rich'), 50, 1000),
+        (cases(ctx, mode='big'), 100, 2300),
+        (cases(ctx, mode='rich'), 60, 1000),
         (reject_cases(), 10, 200),
     ]
     for i, (strat, q, t) in enumerate(plan):
